@@ -339,8 +339,11 @@ impl Method for Renko {
 		self.volume += candle.volume();
 
 		if value >= self.next_block_upper {
-			let len = ((value - self.last_block_upper) / self.last_block_upper / self.brick_size)
-				as usize;
+			// the price has reached the next brick boundary, so at least one brick is due even if the
+			// quotient rounds down to just under 1
+			let len = (((value - self.last_block_upper) / self.last_block_upper / self.brick_size)
+				as usize)
+				.max(1);
 			let base_line = self.last_block_upper;
 
 			self.last_block_upper = base_line * (1. + self.brick_size * len as ValueType);
@@ -359,8 +362,9 @@ impl Method for Renko {
 				block_volume: volume / len as ValueType,
 			}
 		} else if value <= self.next_block_lower {
-			let len = ((self.last_block_lower - value) / self.last_block_lower / self.brick_size)
-				as usize;
+			let len = (((self.last_block_lower - value) / self.last_block_lower / self.brick_size)
+				as usize)
+				.max(1);
 			let base_line = self.last_block_lower;
 
 			self.last_block_upper = base_line * (1. - self.brick_size * (len - 1) as ValueType);
